@@ -24,10 +24,47 @@ def run_hungarian(case):
     return {"matrix": M, "events": events, "input": case}
 
 
+def run_hungarian_steps(case):
+    """Step level: the hungarian_init / hungarian_stage hook events of one call per direction -> traces for HungarianSteps.tla"""
+    from solvor import _verif
+    from solvor.hungarian import solve_hungarian
+    M = case["matrix"]
+    sc = case.get("scale", 1)
+    real = [[x / sc for x in row] for row in M] if sc != 1 or case.get("floats") else [list(row) for row in M]
+    out = []
+    for minimize in (True, False):
+        _verif.start()
+        try:
+            solve_hungarian(real, minimize=minimize)
+        except Exception:  # noqa: BLE001
+            pass
+        events, dropped = _verif.stop()
+        init = next((e for e in events if e["e"] == "hungarian_init"), None)
+        if init is None or dropped:
+            continue
+
+        def ints(xs):
+            vals = [float(x) * sc for x in xs]
+            return [int(round(v)) for v in vals], all(abs(v - round(v)) < 1e-9 and abs(v) < 10 ** 8 for v in vals)
+        n = init["n"]
+        mat = [ints(row)[0] for row in init["matrix"]]
+        stages = []
+        for e in events:
+            if e["e"] != "hungarian_stage":
+                continue
+            u, eu = ints(e["u"][1:])
+            v, ev = ints(e["v"][1:])
+            stages.append({"row": int(e["row"]), "u": u, "v": v, "match": [int(x) for x in e["match"][1:]], "exact": bool(eu and ev)})
+        out.append({"n": n, "matrix": mat, "minimize": minimize, "stages": stages, "input": case})
+    return {"steps": out}
+
+
 def gen(rng, maxn=7):
     r, c = rng.randint(1, maxn), rng.randint(1, maxn)
     style = rng.random()
-    if style < 0.3:
+    if style < 0.15:
+        vals = [-3, -2, -1, 0, 0, 0, 1, 2]  # zeros among negative entries: reduced costs of a fresh row can be negative
+    elif style < 0.3:
         vals = [0, 1]                      # many ties
     elif style < 0.6:
         vals = list(range(-4, 10))
